@@ -85,6 +85,11 @@ def _resolve_dotted(q: str):
     raise ImportError(q)
 
 
+class Thunk:
+    def __init__(self, node, env):
+        self.node, self.env, self.done, self.val = node, env, False, None
+
+
 class Env:
     def __init__(self, db: RtDB, vars: dict, old_vars: Optional[dict] = None, universes: Optional[dict] = None):
         self.db = db
@@ -109,7 +114,8 @@ class Evaluator:
             if isinstance(st, ast.Expr) and isinstance(st.value, ast.Constant):
                 continue
             if isinstance(st, ast.Assign):
-                env.vars[st.targets[0].id] = self.ev(st.value, env)
+                # lazy: a local of a contract function is only evaluated where a clause uses it
+                env.vars[st.targets[0].id] = Thunk(st.value, Env(self.db, dict(env.vars), env.old_vars, env.universes))
             elif isinstance(st, ast.Return):
                 return st.value, env
             elif isinstance(st, ast.If):
@@ -144,7 +150,13 @@ class Evaluator:
 
     def e_Name(self, n, env):
         if n.id in env.vars:
-            return env.vars[n.id]
+            v = env.vars[n.id]
+            if isinstance(v, Thunk):
+                if not v.done:
+                    v.val = self.ev(v.node, v.env)
+                    v.done = True
+                return v.val
+            return v
         if n.id in self.db.specs:
             return ("spec", self.db.specs[n.id])
         if n.id in self.db.aliases:
@@ -452,6 +464,9 @@ class Evaluator:
     def c_len(self, n, env):
         return len(self.ev(n.args[0], env))
 
+    def c_elems(self, n, env):
+        return list(self.ev(n.args[0], env))
+
 
 class Monitor:
     """Wraps real functions with their contracts."""
@@ -465,8 +480,33 @@ class Monitor:
         self.check_pre = check_pre
         self.snapshot: Callable[[Any], Any] = copy.deepcopy
 
+    def pick(self, target, vars):
+        if target in self.db.contracts:
+            return self.db.contracts[target]
+        for k, c in self.db.contracts.items():
+            if k.split("#")[0] != target:
+                continue
+            types = {}
+            for st in c.node.body:
+                if isinstance(st, ast.Assign) and st.targets[0].id == "types":
+                    types = ast.literal_eval(st.value)
+            ok = True
+            for pn, ts in types.items():
+                v = vars.get(pn)
+                if ts == "int" and not (isinstance(v, int)):
+                    ok = False
+                if ts == "Slice" and not isinstance(v, slice):
+                    ok = False
+                if ts.startswith("TupSeq") and not isinstance(v, tuple):
+                    ok = False
+            if ok:
+                return c
+        return None
+
     def call(self, target: str, fn: Callable, args: tuple, kwargs: dict, bound_names: list[str]):
-        con = self.db.contracts[target]
+        con = self.pick(target, {**dict(zip(bound_names, args)), **kwargs})
+        if con is None:
+            return fn(*args, **kwargs)
         self.stats["calls"] += 1
         import inspect
         sig_names = bound_names
@@ -495,6 +535,11 @@ class Monitor:
                     raise_conds.append((name, None))
         try:
             result = fn(*args, **kwargs)
+            import types as _types
+            if isinstance(result, _types.GeneratorType):
+                # the contract talks about the sequence the generator yields: materialise it once
+                # (exceptions raised lazily surface here) and hand an iterator over it to the caller
+                result = _ListIter(list(result))
         except Exception as exc:
             if "raises" in con.fns:
                 ok = False
@@ -549,7 +594,12 @@ class Monitor:
     # -------------------------------------------------------------- installation on the real classes
     def install(self, targets: Optional[list[str]] = None):
         import inspect
+        seen = set()
         for target in (targets or list(self.db.contracts)):
+            target = target.split("#")[0]
+            if target in seen:
+                continue
+            seen.add(target)
             owner_q, fname = target.rsplit(".", 1)
             try:
                 owner = _resolve_dotted(owner_q)
@@ -604,6 +654,42 @@ class Monitor:
         for owner, fname, raw in reversed(self.installed):
             setattr(owner, fname, raw)
         self.installed = []
+
+
+class _ListIter:
+    """Iterator over a materialised generator result (re-iterable for the contract clauses)."""
+
+    def __init__(self, items):
+        self.items = items
+        self.pos = 0
+
+    def __iter__(self):
+        return self if self.pos else _ListIter2(self)
+
+    def __next__(self):
+        if self.pos >= len(self.items):
+            raise StopIteration
+        self.pos += 1
+        return self.items[self.pos - 1]
+
+    def __len__(self):
+        return len(self.items)
+
+
+class _ListIter2:
+    def __init__(self, parent):
+        self.p = parent
+        self.i = 0
+
+    def __iter__(self):
+        return self
+
+    def __next__(self):
+        if self.i >= len(self.p.items):
+            raise StopIteration
+        self.i += 1
+        self.p.pos = max(self.p.pos, 0)
+        return self.p.items[self.i - 1]
 
 
 def _short(d, limit=400):
